@@ -827,7 +827,7 @@ func runC18(c *core.Ctx) {
 				c.Check(okW, key+"#writer-is-staging-file", p.Pos(ret.Pos()), "the returned writer is the staging file", "the writer handed to the caller is not the staging file that gets renamed")
 				// the open error is tested before success
 				nilEdges := core.EdgesWhere(ps, func(r core.Rel) bool { return r.Op == token.EQL && extractOf(r.X, open, 1) && core.IsNilConst(r.Y) })
-				path, reached := core.Reach(ps, open, isTarget(ret), nilEdges, nil)
+				path, reached := core.Reach(ps, open, successReturn(ret, errIdx), nilEdges, nil)
 				c.Check(!reached, key+"#open-error-tested", p.Pos(ret.Pos()), "success only when the staging file was created", "PutStream can succeed although creating the staging file failed", p.Witness(path)...)
 			}
 			for _, cl := range ps.AnonFuncs {
